@@ -338,7 +338,16 @@ def _iso(ms: int) -> str:
     return _dt.datetime.fromtimestamp(ms / 1000.0, tz=_dt.timezone.utc).isoformat()
 
 
-def gen_world(rng: random.Random, logical_sched: bool = False, parallel: bool = False) -> dict:
+#: fixed anchor of the scripted clocks used for worlds without an ISO logical clock: 2025-06-15T15:06:40Z.  Base and
+#: variants stay inside that UTC day, so the documented `fallback` reads (T2 floors TODAY's date when ctx.now is missing)
+#: see the same date, while time.time()/perf_counter differ by seconds to hours between the replays.
+ANCHOR = 1750000000.0
+CLOCKLESS_BASE = {"kind": "creep", "t0": ANCHOR}
+CLOCKLESS_CLOCKS = [{"kind": "jump", "t0": ANCHOR + 3600.0, "step": 0.75}, {"kind": "back", "t0": ANCHOR + 7200.0, "step": 0.75},
+                    {"kind": "const", "t0": ANCHOR + 5000.0}, {"kind": "jump", "t0": ANCHOR + 100.0, "step": 2.5}]
+
+
+def gen_world(rng: random.Random, logical_sched: bool = False, parallel: bool = False, clockshape: bool = False) -> dict:
     nn = rng.choice([3, 4, 5, 8])
     words = rng.sample(WORDS, nn)
     nodes = [[f"n:{w}", w] for w in words]
@@ -359,7 +368,7 @@ def gen_world(rng: random.Random, logical_sched: bool = False, parallel: bool = 
         eps.append({"id": f"ep{i}", "text": " ".join(rng.choice(words + WORDS[:3]) for _ in range(rng.choice([2, 3, 4]))),
                     "owner": rng.choice(agents + ["world"]), "ts": _iso(ms).replace("+00:00", "Z"),
                     "tags": rng.sample(["x", "y", "z"], rng.choice([0, 1, 2])), "importance": rng.choice([0.0, 0.5, 0.5, 1.0])})
-    sched = rng.random() < 0.2
+    sched = rng.random() < 0.2 and not clockshape
     cfg: Dict[str, Any] = {
         "t1": {"cache": {"enabled": rng.random() < 0.7, "max_entries": 512, "ttl_s": 300}},
         "t2": {"k_retrieval": rng.choice([1, 2, 3, 10]), "sim_threshold": rng.choice([0.0, 0.0, 0.1]),
@@ -402,6 +411,9 @@ def gen_world(rng: random.Random, logical_sched: bool = False, parallel: bool = 
                             "budgets": {"wall_ms": 10 ** 15, "t1_pops": rng.choice([None, 2, 3, 5, 7]),
                                         "t1_iters": rng.choice([None, 1, 2, 3]), "t2_k": rng.choice([None, 1, 2, 3]),
                                         "t3_ops": rng.choice([1, 2, 2])}}
+    if rng.random() < 0.5 or clockshape:
+        # per-turn time budget read by the health check; 1 ms is the smallest legal value, 1000 ms the documented default
+        cfg["budgets"] = {"time_ms": rng.choice([1, 1000, 1000])}
     if rng.random() < 0.3:
         cfg["t3"] = {"allow_reflection": True}
     if rng.random() < 0.2 and not parallel:
@@ -416,7 +428,23 @@ def gen_world(rng: random.Random, logical_sched: bool = False, parallel: bool = 
     for i in range(nt):
         ms = BASE_MS + 1000 * i
         turns.append({"agent": rng.choice(agents), "text": rng.choice(texts), "now_ms": ms, "now": _iso(ms)})
-    return {"spec": spec, "turns": turns, "sched": sched, "logical_sched": logical_sched, "parallel": parallel}
+    sde = "0"
+    if clockshape:
+        # ctx clock shapes: no ISO string in ctx.now for at least one turn, now_ms of every accepted shape
+        for t in turns:
+            t["now_shape"] = rng.choice(["none", "none", "absent", "str"])
+            t["now_ms_shape"] = rng.choice(["int", "float", "callable", "callable", "none"])
+        cfg["t4"]["snapshot_every_n_turns"] = 1   # every clockless turn persists a snapshot
+        turns[0]["now_shape"] = rng.choice(["none", "absent"])
+        turns[0]["now_ms_shape"] = rng.choice(["callable", "float", "none"])
+        # the LAST writer of state_<agent>.json decides the body: keep the final turn clockless as well
+        turns[-1]["now_shape"] = rng.choice(["none", "absent"])
+        turns[-1]["now_ms_shape"] = rng.choice(["callable", "float", "none"])
+        sde = None   # SOURCE_DATE_EPOCH unset here; the other world flavours run with it set (and unset in 30%)
+    elif rng.random() < 0.3:
+        sde = None
+    return {"spec": spec, "turns": turns, "sched": sched, "logical_sched": logical_sched, "parallel": parallel,
+            "clockshape": clockshape, "sde": sde}
 
 
 #: clocks for the logical-budget scheduler cases: per-reading steps of 0.05-0.5 s (tens of seconds per turn at most,
@@ -430,6 +458,11 @@ def variants_for(rng: random.Random, case: dict, tier: str) -> Tuple[dict, List[
     quantum_ms: that nondeterminism IS the known finding; the const clock makes the other comparisons meaningful)."""
     bclk = {"kind": "const"} if case["sched"] else {"kind": "real"}
     base = {"name": "base", "hashseed": 0, "clock": bclk, "warm": 0}
+    if case.get("clockshape"):
+        base = {"name": "base", "hashseed": 0, "clock": CLOCKLESS_BASE, "warm": 0}
+        vs = [{"name": "clock:" + c["kind"], "hashseed": 0, "clock": c, "warm": 0} for c in CLOCKLESS_CLOCKS]
+        vs.append({"name": "hash", "hashseed": rng.randrange(2, 2 ** 31), "clock": CLOCKLESS_BASE, "warm": 0})
+        return base, vs
     if case.get("logical_sched"):
         vs = [{"name": "clock:" + c["kind"], "hashseed": 0, "clock": c, "warm": 0} for c in LOGICAL_CLOCKS]
         vs.append({"name": "hash", "hashseed": rng.randrange(2, 2 ** 31), "clock": bclk, "warm": 0})
@@ -459,7 +492,8 @@ def run_worker(scratch: Path, case: dict, variant: dict, timeout: int = 150) -> 
     root = Path(tempfile.mkdtemp(prefix="e2e_", dir=str(scratch)))
     try:
         job = root / "job.json"
-        job.write_text(json.dumps({"case": {"spec": case["spec"], "turns": case["turns"]}, "variant": variant, "root": str(root / "w")}))
+        job.write_text(json.dumps({"case": {"spec": case["spec"], "turns": case["turns"], "sde": case.get("sde", "0")},
+                                   "variant": variant, "root": str(root / "w")}))
         env = dict(os.environ, PYTHONHASHSEED=str(variant.get("hashseed", 0)), CI="true", CLEMATIS3_REPO=str(core.REPO))
         try:
             p = subprocess.run([sys.executable, "-m", "harness.lib.c01_worker", str(job)], cwd=str(VERIF), env=env,
@@ -533,13 +567,62 @@ def diff_obs(a: dict, b: dict) -> List[Tuple[str, str, List[str]]]:
         if xa == xb:
             continue
         fields = []
+        if xa is None or xb is None:
+            out.append(("snaps", name, ["#missing"]))
+            continue
         try:
-            da, db = json.loads(bytes.fromhex(xa or "7b7d")), json.loads(bytes.fromhex(xb or "7b7d"))
-            fields = sorted(k for k in set(da) | set(db) if da.get(k, "<absent>") != db.get(k, "<absent>")) or ["#bytes"]
+            fa, fb = _deep_flat(json.loads(bytes.fromhex(xa))), _deep_flat(json.loads(bytes.fromhex(xb)))
+            fields = sorted(k for k in set(fa) | set(fb) if fa.get(k, "<absent>") != fb.get(k, "<absent>")) or ["#bytes"]
+            if name.endswith(".meta") and (a.get("sde_unset") or b.get("sde_unset")):
+                # with SOURCE_DATE_EPOCH unset the sidecar's created_at is the wall clock by the repository's own
+                # documented contract (snapshot._deterministic_created_at); every other sidecar field is compared
+                fields = [f for f in fields if f != "created_at"]
+                if not fields:
+                    continue
         except Exception:
             fields = ["#bytes"]
-        out.append(("snaps", name, fields))
+        out.append(("snaps", name, fields[:12]))
     return out
+
+
+def _deep_flat(x: Any, pre: str = "") -> Dict[str, Any]:
+    """every leaf of a JSON body under its dotted path (lists by index)"""
+    out: Dict[str, Any] = {}
+    if isinstance(x, dict):
+        if not x and pre:
+            out[pre] = {}
+        for k, v in x.items():
+            out.update(_deep_flat(v, f"{pre}.{k}" if pre else str(k)))
+    elif isinstance(x, list):
+        if not x and pre:
+            out[pre] = []
+        for i, v in enumerate(x):
+            out.update(_deep_flat(v, f"{pre}[{i}]"))
+    else:
+        out[pre] = x
+    return out
+
+
+def hard_diffs(a: dict, b: dict, diffs: list) -> Tuple[list, list]:
+    """Differences that can NEVER be one of the by-design classes, split off before any attribution:
+      * health.jsonl values differ (same number of records) although apply.jsonl and the utterances are identical
+      * a snapshot / sidecar body that exists in both runs differs although t4.jsonl, apply.jsonl and the utterances are
+        identical (same approved deltas, same version, same turn => the persisted body must be the same)
+    -> (hard, rest)"""
+    if "crash" in a or "crash" in b:
+        return [], diffs
+    same = lambda n: a["logs"].get(n) == b["logs"].get(n)  # noqa: E731
+    quiet = a["lines"] == b["lines"] and same("apply.jsonl")
+    hard, rest = [], []
+    for d in diffs:
+        grp, name, fields = d
+        if grp == "logs" and name == "health.jsonl" and "#records" not in fields and quiet:
+            hard.append(d)
+        elif grp == "snaps" and "#missing" not in fields and quiet and same("t4.jsonl"):
+            hard.append(d)
+        else:
+            rest.append(d)
+    return hard, rest
 
 
 def clock_perturbed(variant: dict) -> bool:
@@ -641,7 +724,7 @@ def fresh_keys(variant: dict, diffs: List[Tuple[str, str, List[str]]]) -> List[T
 
 class E2EComp(Component):
     name = "e2e"
-    budget = {"quick": 6, "thorough": 60, "search": 10}
+    budget = {"quick": 8, "thorough": 64, "search": 12}
 
     def gen(self, rng: random.Random, i: int) -> dict:
         return gen_world(rng)
@@ -672,6 +755,12 @@ def _nontrivial_tags(case: dict, base: dict) -> List[str]:
             t.add("gel")
         if ((case["spec"].get("cfg") or {}).get("perf") or {}).get("enabled"):
             t.add("t1_parallel")
+        if case.get("clockshape"):
+            t.add("ctx_clock_shapes")
+        if case.get("sde", "0") is None:
+            t.add("source_date_epoch_unset")
+        if ((case["spec"].get("cfg") or {}).get("budgets") or {}).get("time_ms") == 1:
+            t.add("tiny_time_budget")
         if case.get("parallel"):
             for l in bytes.fromhex(base["logs"].get("t2.jsonl", "")).decode().splitlines():
                 r = json.loads(l)
@@ -695,7 +784,8 @@ def run_e2e(ctx: Ctx, comp: E2EComp, n: int) -> None:
     for c in ctx.load_corpus(comp.name):
         cases.append((c["case"], c["base"], [c["variant"]]))
     for i in range(n):
-        case = gen_world(rng, logical_sched=True) if i % 3 == 2 else (gen_world(rng, parallel=True) if i % 3 == 1 else comp.gen(rng, i))
+        case = {0: lambda: comp.gen(rng, i), 1: lambda: gen_world(rng, parallel=True), 2: lambda: gen_world(rng, logical_sched=True),
+                3: lambda: gen_world(rng, clockshape=True)}[i % 4]()
         base, vs = variants_for(rng, case, tier)
         cases.append((case, base, vs))
     for ci, (case, base, vs) in enumerate(cases):
@@ -717,6 +807,7 @@ def run_e2e(ctx: Ctx, comp: E2EComp, n: int) -> None:
     # whatever survives the ablation is a fresh violation, reported on the (smaller) ablated case.
     pending = []   # (ci, variant, diffs)
     deferred: List[tuple] = []   # real-clock (hash-only) findings are reported AFTER the scripted-clock ones
+    hardq: List[tuple] = []      # health / snapshot-body differences: reported first, never attributed
     for ci, (case, base_v, vs) in enumerate(cases):
         runs = by_case[ci]
         base = runs[0][1]
@@ -733,6 +824,14 @@ def run_e2e(ctx: Ctx, comp: E2EComp, n: int) -> None:
             diffs = diff_obs(base, r)
             if not diffs:
                 continue
+            hard, diffs = hard_diffs(base, r, diffs)
+            for key, detail in fresh_keys(v, hard):
+                hardq.append(({"case": case, "base": base_v, "variant": v},
+                              f"variant {v['name']} (hashseed {v['hashseed']}, clock {v['clock']}, warm {v['warm']}): {detail} "
+                              "— with identical utterances and apply/t4 records (never a by-design class)",
+                              {"diffs": [list(d) for d in hard]}, key))
+            if not diffs:
+                continue
             if needs_ablation(case, v):
                 pending.append((ci, v, diffs))
             else:
@@ -740,6 +839,8 @@ def run_e2e(ctx: Ctx, comp: E2EComp, n: int) -> None:
                     deferred.append(({"case": case, "base": base_v, "variant": v},
                                      f"variant {v['name']} (hashseed {v['hashseed']}, clock {v['clock']}, warm {v['warm']}): {detail}",
                                      {"diffs": [list(d) for d in diffs]}, key))
+    for c_, detail_, io_, key_ in sorted(hardq, key=lambda q: 0 if q[0]["variant"]["clock"].get("kind") != "real" else 1):
+        ctx.monitor_fail(comp.name, "byte_identical_replay", c_, detail_, io_, key=key_)
     attributed: Dict[str, int] = {}
     abl_used = 0
     with cf.ThreadPoolExecutor(max_workers=workers) as ex:
@@ -928,12 +1029,16 @@ def replay(ctx: Ctx, rec: dict) -> int:
         for d in diffs:
             print(f"REPLAY e2e difference {d[0]} {d[1]} fields={d[2]}")
         keys: List[str] = []
+        hard, diffs = hard_diffs(base, var, diffs)
+        keys += [k for k, _ in fresh_keys(c["variant"], hard)]
+        if hard:
+            print("REPLAY e2e health/snapshot-body difference with identical utterances and apply/t4 records")
         if diffs and needs_ablation(c["case"], c["variant"]):
             key, _, _, adiffs, note, _ = attribute(ctx.scratch, c["case"], c["base"], c["variant"], base, var, diffs)
             print(f"REPLAY e2e attribution: {note}")
-            keys = [key] if key is not None else [k for k, _ in fresh_keys(c["variant"], adiffs)]
+            keys += [key] if key is not None else [k for k, _ in fresh_keys(c["variant"], adiffs)]
         elif diffs:
-            keys = [k for k, _ in fresh_keys(c["variant"], diffs)]
+            keys += [k for k, _ in fresh_keys(c["variant"], diffs)]
         for k in keys:
             print(f"REPLAY e2e class {k}")
         want = rec.get("key")
